@@ -44,7 +44,7 @@ def load_check(prop: str):
 # ------------------------------------------------------------------ worker side
 
 
-def _winit(threads: int):
+def _winit(threads: int, x64: bool = True):
     os.environ["PYTHONHASHSEED"] = os.environ.get("PYTHONHASHSEED", "0")
     faulthandler.enable()
     if threads == 1 and not os.environ.get("VERIF_NO_PIN"):
@@ -59,7 +59,7 @@ def _winit(threads: int):
     sys.path.insert(0, ROOT)
     from fdsim import env
 
-    env.bootstrap(threads=threads)
+    env.bootstrap(threads=threads, x64=x64)
 
 
 def _wrun(prop: str, index: int, spec: dict, timeout_s: float) -> dict:
@@ -91,10 +91,10 @@ def _wrun(prop: str, index: int, spec: dict, timeout_s: float) -> dict:
 
 
 class Pool:
-    def __init__(self, workers: int, threads: int = 1):
+    def __init__(self, workers: int, threads: int = 1, x64: bool = True):
         self.workers = workers
         ctx = mp.get_context("spawn")
-        self.ex = cf.ProcessPoolExecutor(max_workers=workers, mp_context=ctx, initializer=_winit, initargs=(threads,))
+        self.ex = cf.ProcessPoolExecutor(max_workers=workers, mp_context=ctx, initializer=_winit, initargs=(threads, x64))
 
     def map_runs(self, prop: str, items: list[tuple[int, dict]], timeout_s: float) -> list[dict]:
         futs = {self.ex.submit(_wrun, prop, i, spec, timeout_s): i for i, spec in items}
@@ -275,7 +275,7 @@ def run_check(prop: str, tier: str, seed: int, workers: int | None = None, runs:
         probe.stdin.close()
         probe.stdin = None
 
-    pool = Pool(workers, threads)
+    pool = Pool(workers, threads, bool(getattr(mod, "X64", True)))
     harness_errors = []
     try:
         results = pool.map_runs(prop, list(enumerate(specs)), timeout_s)
